@@ -269,10 +269,6 @@ func c16tJudge(e *c16tEnv, t *C16TP) (what string, obs, want interface{}, branch
 	given := make([]int, len(p.Vals))
 	for i, v := range p.Vals {
 		given[i] = v[0]
-		if p.Src != "map" && (c16Has(p.Omit, c16kID) || (len(p.Sel) > 0 && !c16Has(p.Sel, c16kID))) {
-			// the key is not part of the statement: what the caller holds stays as it is whatever happens
-			given[i] = v[0]
-		}
 	}
 	rowByAB := func(v []int) []int {
 		for _, r := range got.Rows {
